@@ -53,7 +53,8 @@ fn model_from_json(v: &Value) -> LinearModel {
 fn gen_model(r: &mut Rng, kind: &str) -> LinearModel {
     let mut m = LinearModel::new();
     let nv = if kind == "bigint" { 4 + r.below(3) } else { 1 + r.below(if kind == "shadow" { 2 } else { 4 }) };
-    let names = ["x", "y", "z", "w", "u", "v", "t"];
+    // now and then the variables carry names of the kind the linearizer gives its auxiliaries: a solver must report them like any other
+    let names = if r.chance(1, 5) { ["$abs_0", "y", "$max_0_select_1", "w", "$or_2", "v", "$sl"] } else { ["x", "y", "z", "w", "u", "v", "t"] };
     let pin = (kind == "int" || kind == "mixed" || kind == "bigint") && nv >= 2 && r.chance(1, 6);
     for i in 0..nv {
         let t = if pin && i == 0 { VariableType::IntegerRange(1, 1) } else { match kind {
